@@ -171,6 +171,13 @@ def run(ctx):
         need_br = max(len(it.get("view", [])) for it in its)
         nth = len(p.split(" | ")) - 1
         total = len(its)
+        # (below the need at several distances: the push that exceeds the limit is then a thread-choice entry in some
+        # programs and a load / spurious entry in others)
+        for d in (-3, -2):
+            if need_br + d >= 1:
+                q = set_cfg(p, maxbr=need_br + d)
+                lim_programs.append(q)
+                expect[q] = ("branchLimit", None)
         for d in (-1, 0, 1):
             q = set_cfg(p, maxbr=need_br + d)
             lim_programs.append(q)
@@ -195,6 +202,22 @@ def run(ctx):
             q = set_cfg(p, intv=1, dur=3600000, **extra)
             lim_programs.append(q)
             expect[q] = ("ok", min(total, 1) if extra.get("perm") == 2 else total)
+    # every limit from 1 to need+1 on straight-line programs with loads, RMWs and a spurious wait (the entry that
+    # exceeds the limit is of every kind in turn)
+    for body, cfg in (("st 0 2 rlx; ld 0 rlx; ld 0 rlx; ld 0 rlx", "x=1"), ("ld 0 rlx; ld 0 rlx; ld 0 rlx", "x=1"),
+                      ("fadd 0 1 rlx; ld 0 rlx; st 0 1 rlx; ld 0 rlx", "x=1"),
+                      ("spawn 1; st 0 1 rlx; nnotify 0; join 1 | T1: nwait 0; ld 0 rlx; ld 0 rlx", "x=1 n=1")):
+        p0 = f"cfg {cfg} | T0: {body}"
+        r0 = lvlib.run_impl([p0], max_iters=cap)
+        its0, done0 = lvlib.iterations(r0.get(p0, []))
+        if not done0 or done0[1] != "ok":
+            continue
+        lens = [len(it.get("view", [])) for it in its0]
+        for lim in range(1, max(lens) + 2):
+            q = set_cfg(p0, maxbr=lim)
+            lim_programs.append(q)
+            # the run fails at the first iteration that needs more entries than the limit
+            expect[q] = ("branchLimit" if any(n > lim for n in lens) else "ok", None)
     impl2, twin2, dis2 = ctx.correspond(lim_programs, cap, view="explore")
     differing |= {d["program"] for d in dis2}
     for q in lim_programs:
@@ -218,6 +241,21 @@ def run(ctx):
             sw, sb = val(lvlib.iterations(rb[w])[0]), val(lvlib.iterations(rb[b])[0])
             if sw - sb:
                 ctx.known_finding(k["id"], "(a run with exploration controls finds a result the unrestricted run does not) " + k["what"])
+    if dis and not unlisted:
+        # the correspondence of the exploration broke and no oracle above has a failing input: search for an execution
+        # that fully exploring the decisions outside the regions must visit (the model's exploration does, its path is
+        # known) and the implementation's exploration does not; the implementation itself confirms the execution by
+        # running that path from a checkpoint
+        hits = ctx.model_path_search([d["program"] for d in dis if d["program"] not in base or True], cap)
+        for q, o, path in hits:
+            unlisted += 1
+            ctx.violation("oracle-missing",
+                          {"outcome": o, "decision_path": json.loads(path),
+                           "note": "the implementation, handed this decision path as a checkpoint, executes it to exactly "
+                                   "this result, so it is an execution of the real code; its own exploration never "
+                                   "produces the result, the model's exploration (entries created inside a region frozen, "
+                                   "all others advanced: Controls.nonexploring_frozen, outside_unaffected) does",
+                           "implementation_equals_twin": False}, found_input=True, program=q)
     if (dis or dis2) and not unlisted:
         for d in (dis + dis2)[:3]:
             ctx.violation("correspondence", {"disagreement": d, "rests_on_it": ctx.theorems()}, found_input=False,
